@@ -69,6 +69,15 @@ variable (c : Cmd) (i k l r : Nat) (t n p : Line) (e : Exc)
 @[simp] theorem writeOf_ev : writeOf (Out.ev l n p) = none := rfl
 @[simp] theorem writeOf_notified : writeOf (Out.notified r) = none := rfl
 @[simp] theorem writeOf_exc : writeOf (Out.exc e) = none := rfl
+variable (b : Bool)
+@[simp] theorem subOf_legacy : subOf (Out.legacy r b) = none := rfl
+@[simp] theorem resOf_legacy : resOf (Out.legacy r b) = none := rfl
+@[simp] theorem repliedOf_legacy : repliedOf (Out.legacy r b) = none := rfl
+@[simp] theorem writeOf_legacy : writeOf (Out.legacy r b) = none := rfl
+@[simp] theorem subOf_legacyGone : subOf (Out.legacyGone r) = none := rfl
+@[simp] theorem resOf_legacyGone : resOf (Out.legacyGone r) = none := rfl
+@[simp] theorem repliedOf_legacyGone : repliedOf (Out.legacyGone r) = none := rfl
+@[simp] theorem writeOf_legacyGone : writeOf (Out.legacyGone r) = none := rfl
 end
 
 /-- commands accepted by `queue_command`, in submission order -/
@@ -108,6 +117,13 @@ theorem discErrs_proj (l : List Cmd) :
 theorem notified_proj (l : List Nat) :
     subs (l.map Out.notified) = [] ∧ writes (l.map Out.notified) = [] ∧
     replied (l.map Out.notified) = [] ∧ resIds (l.map Out.notified) = [] := by
+  induction l with
+  | nil => simp
+  | cons a r ih => simp [ih.1, ih.2.1, ih.2.2.1, ih.2.2.2]
+
+theorem legacy_proj (l : List Nat) (b : Bool) :
+    subs (l.map fun r => Out.legacy r b) = [] ∧ writes (l.map fun r => Out.legacy r b) = [] ∧
+    replied (l.map fun r => Out.legacy r b) = [] ∧ resIds (l.map fun r => Out.legacy r b) = [] := by
   induction l with
   | nil => simp
   | cons a r ih => simp [ih.1, ih.2.1, ih.2.2.1, ih.2.2.2]
@@ -364,13 +380,18 @@ theorem lose_step (h : List Out) (q : Q) (hi : Inv' h q) : Step h q (lose q) := 
   unfold lose
   obtain ⟨⟨a, b, c, d⟩, e⟩ := hi
   have hn := notified_proj q.waiters
+  have hl := legacy_proj q.legacy q.clean
   have hd := discErrs_proj (q.command.toList ++ q.commands)
   refine ⟨⟨⟨?_, by simp, by simp, by simp⟩, by simp⟩, ?_, by simp⟩
   · simp only [pend] at a
-    simp only [pend, resIds_append, hn.2.2.2, hd.2.2.2, subs_append, hn.1, hd.1, List.append_nil,
+    simp only [pend, resIds_append, hn.2.2.2, hl.2.2.2, hd.2.2.2, subs_append, hn.1, hl.1, hd.1, List.append_nil,
       List.nil_append, Option.toList_none, List.map_nil]
     exact a
-  · intro _; simp only [writes_append, hn.2.1, hd.2.1, List.append_nil]
+  · intro _; simp only [writes_append, hn.2.1, hl.2.1, hd.2.1, List.append_nil]
+
+theorem onDisc_step (h : List Out) (q : Q) (rid : Nat) (hi : Inv' h q) : Step h q (onDisc q rid) := by
+  unfold onDisc
+  split <;> exact step_of_silent hi rfl rfl rfl (by simp [Silent])
 
 theorem whenDisc_step (h : List Out) (q : Q) (rid : Nat) (hi : Inv' h q) : Step h q (whenDisc q rid) := by
   unfold whenDisc
